@@ -335,6 +335,7 @@ def _tls_burst(kind):
             return not t.is_alive()
 
         def talk(s, data):
+            s.settimeout(4)
             s.sendall(data)
             buf = b""
             try:
@@ -343,6 +344,10 @@ def _tls_burst(kind):
                     if not ch:
                         break
                     buf += ch
+            except socket.timeout:
+                # the answer came (or not) but the server never ended the stream
+                if buf:
+                    bad.append(("no-end-of-stream", "a client that got its %d-byte answer is still waiting for the end of the stream 4 s later (connection never shut down)" % len(buf)))
             except (OSError, ssl.SSLError):
                 pass
             return buf
